@@ -253,6 +253,9 @@ func (r *runner) section2(co *corpusT) {
 				}
 				m := append([]byte{}, s.B...)
 				for v := 0; v < 256; v++ {
+					if v&15 == 0 && (r.tripped(secN, ep, class) || c.Expired()) {
+						break
+					}
 					m[p] = byte(v)
 					r.do(secN, ep, append([]byte{}, m...), class)
 				}
